@@ -16,7 +16,7 @@ TECHNIQUE = "fault injection with exhaustive enumeration of crash points per gen
 RULE = ("Hypothesis-generated scenarios (1-3 chromosomes, annotated + novel isoforms) x option sets {no groups, "
         "--read_group tag, --read_group file:<table>} x {--keep_tmp, not} x {gzip, --no_gzip}, --threads 1; one clean "
         "run, one instrumented run listing the N mutation points (file creation, append-open, removal, directory "
-        "creation, database creation), then for every k in 1..N (quick: crash before k; thorough: before and after) "
+        "creation, database creation), then for every k in 1..N, once crashing before and once after the mutation (quick: 2 scenarios, thorough: 6), "
         "a crashed run followed by `--resume`. A case = (scenario, k, mode); distinct by construction; non-trivial = "
         "crash point after the first intermediate file was written (collection, construction, merging, clean-up "
         "phases). exhaustive=true: all points of every generated scenario were visited.")
@@ -46,11 +46,23 @@ def scenarios(draw):
     sc = S.gen_discovery(src, n_chroms=(1, 3), genes_per_chrom=(1, 2), novel_per_gene=(0, 1), reads_known=(1, 3),
                          reads_novel=(3, 4), intergenic_p=0.2, max_exons=4, exact=True)
     sc.pop("truth", None)
+    # state that only the intermediate files carry: most reads have a polyA tail (so the run decides to require tails
+    # for novel models) while the reads of one unannotated isoform have none (its model appears iff that decision,
+    # taken from the saved read statistics, changes)
+    if sc.get("novel") and src.bool(0.7):
+        nv = src.choice(sc["novel"])
+        hit = [r for r in sc["reads"] if r["c"] == nv["chr"] and
+               [list(b) for b in R.cigar_blocks(r["p"], r["cg"])] == [list(e) for e in nv["exons"]]]
+        if hit and len(hit) * 4 <= len(sc["reads"]):
+            for r in hit:
+                r["cg"] = [x for x in r["cg"] if x[0] != 4]
+                r.pop("sl", None)
+                r.pop("sr", None)
     lens = {c[0]: c[1] for c in sc["chroms"]}
     sc["reads"] = [r for r in sc["reads"] if R.cigar_blocks(r["p"], r["cg"])[-1][1] + 45 < lens[r["c"]]]
     for i in range(src.int(0, 3)):
         sc["reads"].append(S.unmapped_read("u%d" % i))
-    grouping = src.choice(["none", "none", "tag", "file"])
+    grouping = src.choice(["none", "tag", "tag", "file"])
     if grouping != "none":
         for r in sc["reads"]:
             if src.bool(0.8):
@@ -155,7 +167,7 @@ def enumerate_scenario(sc, ctx, shard, nshards, modes, stride=1):
 def run_enumeration(shard, nshards, seed, n, ctx, tier="quick"):
     # all shards generate the same scenarios (seed independent of the shard) and take disjoint crash points
     n_scen = 2 if tier == "quick" else 6
-    modes = ("before",) if tier == "quick" else ("before", "after")
+    modes = ("before", "after")
     base_seed = int(os.environ.get("VERIF_SEED", "1") or 1)
 
     @hypothesis.seed(base_seed * 7919 + 13)
